@@ -84,7 +84,7 @@ def step (st : Driver.Auth.St) (op : List String) (impl : String) : Driver.Auth.
           let sig := (bytesOfHex sigHex).getD []
           let enc := U2f.encodeRegister r.key r.keyHandle r.certificate sig
           s!"res=ok:{hx r.key.x}:{hx r.key.y}:{hx r.keyHandle}:{hx r.certificate}:{hx sig}:{hx enc} store={storeStr out.2.1}"
-      ({ st with store := { out.2.1 with faults := [] } }, model ++ "\t" ++ verdict)
+      ({ st with store := { out.2.1 with faults := [] }, implStore := (if (fieldOf impl "store").isSome then implSnaps impl else st.implStore) }, model ++ "\t" ++ verdict)
     | _, _, _, _, _ => (st, "bad-op\tna")
   | ["u2f.auth", app, chal, handle, counter, presence, _param, faults] =>
     match bytesOfHex app, bytesOfHex chal, bytesOfHex handle, counter.toNat?, presence.toNat?, parseFaults faults with
@@ -113,7 +113,7 @@ def step (st : Driver.Auth.St) (op : List String) (impl : String) : Driver.Auth.
           else (match Spec.U2f.c17_authenticate app chal handle counter presence st.store.items o with
             | none => "ok"
             | some f => "fail:" ++ f)
-      ({ st with store := { out.2.1 with faults := [] } }, model ++ "\t" ++ verdict)
+      ({ st with store := { out.2.1 with faults := [] }, implStore := (if (fieldOf impl "store").isSome then implSnaps impl else st.implStore) }, model ++ "\t" ++ verdict)
     | _, _, _, _, _, _ => (st, "bad-op\tna")
   | _ => (st, "bad-op\tna")
 
